@@ -32,6 +32,9 @@ func c11Symbols() (syms []string) {
 	syms = []string{
 		"||example.org^", "! comment", "# comment", "", "   ", "##banner", "||x.test^$unknownmodifier", "0.0.0.0 hosts.test",
 		"||пример.рф^", "||nul\x00.test^", "example.org##.specific", "@@||example.org^$document",
+		// "##" in places where it is not a cosmetic marker, unsupported and invalid cosmetic forms
+		"127.0.0.1 tracker.test #ads##old", "||example.net/page#top##section", "0.0.0.0 hosts3.test  ## note", "example.org#?#.ext", "#@#.nodomain",
+		"example.org,~sub.example.org##.neg", "\texample.com##.tab-indented", "||example.org^$important ",
 	}
 	for _, n := range c11LongLens {
 		syms = append(syms, c11LongRule(n), c11LongComment(n))
@@ -140,7 +143,7 @@ func c11Describe(lists []c11List) string {
 	return sb.String()
 }
 
-var c11Requests = []string{"http://example.org/", "http://aaaa.long.test/", "http://hosts.test/", "http://пример.рф/"}
+var c11Requests = []string{"http://example.org/", "http://aaaa.long.test/", "http://hosts.test/", "http://пример.рф/", "http://tracker.test/", "http://example.net/page#top##section", "http://hosts3.test/"}
 
 // c11Check checks one configuration on both backings.
 func c11Check(c *Ctx, lists []c11List, sig map[string]any, replay map[string]any) (evals int64) {
